@@ -66,7 +66,7 @@ BOUNDS = {
               'reply': 'every leaf of the live v6 dispatch tree and of the v6 announce/withdraw/routes tables, every key of the v4 translation tables and subcommand sets (+ one unregistered type each), '
                        '2-4 argument variants per command, with peers / without peers, every callee outcome and every single fault point; sequences of 3 commands from a pool of 5; background generator of 2, 49, 50 steps',
               'sideeffect': '44 invalid command texts x {v4, v6 spelling}; 5 valid ones; group mode with 4 invalid lines',
-              'selector': 'v4 and v6 spelling: <ip> from 6 values x local-ip(4) x local-as(4) x peer-as(4) x router-id(4) x term order for announce; '
+              'selector': 'v4 and v6 spelling, 7 neighbors (5 IPv4, 2 IPv6 whose addresses extend one another): <ip> from 8 values x local-ip(5) x local-as(4) x peer-as(4) x router-id(4) x term order for announce; '
                           '6 x 4 x 4 for withdraw, watchdog, teardown, routes add, inline group; 2-alternative groups (4 x 3)^2'},
     'thorough': {'reassembly': 'L<=8: every stream x <=4 chunks x 5 drain/exit patterns; L=9, 10: x <=4 chunks x 2 patterns; L=11, 12: x <=3 chunks, drained after every read',
                  'reply': 'same + v6 spelling of announce under API version 4; background generator of 1, 2, 48, 49, 50, 51 steps',
